@@ -410,12 +410,19 @@ func runScenario(steps []string) outcome {
 		}
 		sr.mu.Unlock()
 		for name, c := range sr.calls {
+			// ibb's Close / Write wait for the peer's reply under the stream's own deadline (they
+			// take no context): once the session has ended an unanswered one returns only at that
+			// deadline, which these scenarios set far away so that it cannot hide a wedge of Serve
+			deadlineBound := strings.HasPrefix(name, "ibbclose") || strings.HasPrefix(name, "ibbwrite")
 			select {
 			case o := <-c.done:
 				if o.panicMsg != "" {
 					return o
 				}
 			case <-time.After(wd()):
+				if deadlineBound {
+					continue
+				}
 				return outcome{stalled: true, where: "local call " + name + " did not return after its context was cancelled, its streams closed and the input ended"}
 			}
 		}
